@@ -55,10 +55,10 @@ func (a *SimApp) authenticate(method string, c context.Context, w http.ResponseW
 	case "errtrue":
 		// a legal shape: when an error is returned the flag is to be ignored
 		a.ev(method, "", nil, "err", f != nil)
-		return c, true, injectedErr(f)
+		return c, true, injectedErr(a.s, f, t.ID+method)
 	case "err":
 		a.ev(method, "", nil, "err", f != nil)
-		return c, false, injectedErr(f)
+		return c, false, injectedErr(a.s, f, t.ID+method)
 	case "deny":
 		if rec, ok := w.(*Recorder); ok {
 			rec.inApp = true
@@ -170,7 +170,7 @@ func (a fedProto) Blocked(c context.Context, actorIRIs []*url.URL) (bool, error)
 			return true, nil
 		}
 		a.ev("Blocked", "", ids, "err", true)
-		return false, injectedErr(f)
+		return false, injectedErr(a.s, f, "blocked")
 	}
 	for _, b := range a.srv.Spec.Blocked {
 		if contains(ids, b) {
